@@ -85,7 +85,7 @@ def run_shard(ctx):
                 body = LW.gen_single_mention(r, si, sf, TL.EXTRA_INT[1:] + TL.EXTRA_INT[:1], TL.EXTRA_FLOAT, nm)
                 if body is not None: ctx.count('directed_single_mention'); ctx.seen('directed_contexts', body.shape[1])
             if body is None:
-                body = gen_body(r, env, sentinel='ins_101();' + ('\nins_%d();' % TL.ANTI_SCRATCH if anti else ''),
+                body = gen_body(r, env, sentinel='ins_101();' + ('\nins_%d(%s);' % (TL.ANTI_SCRATCH, r.pick(['', '', '@blob=""'])) if anti else ''),
                                 max_depth=r.pick([1, 2, 3]), max_stmts=r.pick([3, 6, 10]), expr_depth=r.pick([1, 2, 3, 4]))
                 body.anti_scratch = anti
             LW.reconcile_mentions(ctx, body)
@@ -107,7 +107,7 @@ def run_shard(ctx):
                                              has_cast='casts' in feats, ctxs=ctxs, sentinel=le.sentinel)
                 if body is not None: ctx.count('directed_single_mention'); ctx.seen('directed_contexts', body.shape[1])
             if body is None:
-                body = gen_body(r, env, sentinel=le.sentinel + ('\nins_%d();' % le.anti_scratch if anti else ''),
+                body = gen_body(r, env, sentinel=le.sentinel + ('\nins_%d(%s);' % (le.anti_scratch, r.pick(['', '', '@blob=""'])) if anti else ''),
                                 max_depth=r.pick([1, 2, 3]), max_stmts=r.pick([3, 6, 10]), expr_depth=r.pick([1, 2, 3]))
                 body.anti_scratch = anti
             LW.reconcile_mentions(ctx, body, {})
